@@ -7,9 +7,9 @@
 From Coq Require Import List NArith Bool String.
 Import ListNotations.
 Require Import RV.Lib.PyStr RV.Model.Path RV.Model.Rights RV.Model.Regex RV.Model.RegexLang RV.Model.FromFile.
-Require Import RV.Proofs.PathProofs RV.Proofs.RightsProofs RV.Proofs.RightsIntersect RV.Proofs.RegexMatchProofs RV.Proofs.RegexEscapeProofs
+Require Import RV.Proofs.PathProofs RV.Proofs.RightsProofs RV.Proofs.RightsIntersect RV.Proofs.RightsVerifyProofs RV.Proofs.RegexMatchProofs RV.Proofs.RegexEscapeProofs
                RV.Proofs.RegexFuelProofs RV.Proofs.FromFileProofs RV.Proofs.C04Final.
-Require RV.Gen.PathGen RV.Gen.RightsGen.
+Require RV.Gen.PathGen RV.Gen.RightsGen RV.Gen.RightsVerifyGen.
 Open Scope list_scope. Open Scope N_scope.
 
 (* ================================================================== the three simple back-ends *)
@@ -101,6 +101,27 @@ Theorem C04_own_home_owner_write : forall u c tr, safe u -> safe c -> (tr = [] \
   /\ RightsGen.authorization_owner_write true u (render [u; c] ++ tr) = str "rw".
 Proof. exact c04_own_home_owner_write. Qed.
 Print Assumptions C04_own_home_owner_write.
+
+(* "while authentication is enabled": `self._verify_user` (authenticated.Rights.__init__, inherited by owner_only and
+   owner_write; RightsVerifyGen.verify_user is REGENERATED from it) is off for the auth type "none" and for no other. *)
+Theorem C04_verify_user : forall t, RightsVerifyGen.verify_user t = false <-> t = str "none".
+Proof. exact c04_verify_user. Qed.
+Print Assumptions C04_verify_user.
+
+(* hence with EVERY other auth type (htpasswd, remote_user, http_x_remote_user, ldap, a custom module, ...) the
+   anonymous user gets nothing on any path, and owner_only grants nothing in a foreign home *)
+Theorem C04_anonymous_nothing_auth : forall t p, t <> str "none" ->
+  RightsGen.authorization_owner_only (RightsVerifyGen.verify_user t) [] p = []
+  /\ RightsGen.authorization_owner_write (RightsVerifyGen.verify_user t) [] p = []
+  /\ RightsGen.authorization_authenticated (RightsVerifyGen.verify_user t) [] p = [].
+Proof. exact c04_anonymous_nothing_auth. Qed.
+Print Assumptions C04_anonymous_nothing_auth.
+
+Theorem C04_no_foreign_home_auth : forall t u o rest tr, t <> str "none" -> Forall safe (o :: rest) ->
+  (tr = [] \/ tr = [slash]) -> o <> u ->
+  RightsGen.authorization_owner_only (RightsVerifyGen.verify_user t) u (render (o :: rest) ++ tr) = [].
+Proof. exact c04_no_foreign_home_auth. Qed.
+Print Assumptions C04_no_foreign_home_auth.
 
 (* rights.intersect (used to combine the permissions of a collection and of its parent): exactly the letters
    present in both *)
